@@ -75,6 +75,8 @@ type Fault struct {
 	Err   error
 	seen  int
 	Fired bool
+	// Always: fail every matching call (N is ignored, Fired stays false)
+	Always bool
 }
 
 // Options configures a world.
@@ -202,6 +204,10 @@ func (w *World) record(c Call) (*Call, error) {
 			continue
 		}
 		f.seen++
+		if f.Always {
+			ferr = f.Err
+			break
+		}
 		if f.seen == f.N {
 			f.Fired = true
 			ferr = f.Err
@@ -622,6 +628,20 @@ func (w *World) Sync() {
 			}
 		}
 	})
+}
+
+// RestartState emulates a controller restart for everything that lives in memory: a fresh cluster state, cost cache and
+// informer controllers, re-synced from the API.
+func (w *World) RestartState() {
+	w.Cluster = state.NewCluster(w.Clock, w.Client, w.Provider)
+	w.Cost = cost.NewClusterCost(w.Ctx, w.Provider, w.Client)
+	w.nodeCtrl = informer.NewNodeController(w.Client, w.Cluster)
+	w.nodeClaimCtrl = informer.NewNodeClaimController(w.Client, w.Provider, w.Cluster, w.Cost)
+	w.podCtrl = informer.NewPodController(w.Client, w.Cluster)
+	w.dsCtrl = informer.NewDaemonSetController(w.Client, w.Cluster)
+	w.nodePoolCtrl = informer.NewNodePoolController(w.Client, w.Provider, w.Cluster, w.Cost)
+	w.seen = nil
+	w.Sync()
 }
 
 // InformerDeliver reconciles one key on the informer controller of the given kind (Node, NodeClaim, Pod, DaemonSet, NodePool).
